@@ -36,7 +36,7 @@ def parsePods (s : String) : List Pod :=
   (splitOn (unq s) "&").filterMap fun x => match x.splitOn ">" with
     | [name, ip, ls, cps] =>
       some { name := name, ip := ip, labels := labels ls,
-             cports := (splitOn (unq cps) "+").filterMap fun c => match c.splitOn "/" with
+             cports := (splitOn ((unq cps).replace "~" "+") "+").filterMap fun c => match c.splitOn "/" with
                | [n, pr, num] => some (unq n, pr, nat num) | _ => none }
     | _ => none
 
